@@ -1122,6 +1122,73 @@ func checkPositionInForest(p *Program, r *Report, rule string, core *ssa.Functio
 			}
 		}
 	}
+	// the row search extracted into a helper whose error the core hands on: look for the guarded failing
+	// return there, with the claimed position and the leaf count followed through the helper's parameters
+	for _, sc := range callsIn(p, core) {
+		h := sc.call.Common().StaticCallee()
+		if h == nil || !p.owns(h) || h.Blocks == nil || errorResultIndex(h.Signature) < 0 {
+			continue
+		}
+		args := sc.call.Common().Args
+		var hTargets, hCount []ssa.Value
+		for i, a := range args {
+			if i >= len(h.Params) {
+				continue
+			}
+			if fromTargets(a) {
+				hTargets = append(hTargets, h.Params[i])
+			}
+			if a == numLeaves {
+				hCount = append(hCount, h.Params[i])
+			}
+		}
+		if len(hTargets) == 0 || len(hCount) == 0 {
+			continue
+		}
+		inT := func(v ssa.Value) bool {
+			return flowsFrom(v, func(x ssa.Value) bool {
+				for _, t := range hTargets {
+					if x == t {
+						return true
+					}
+				}
+				return false
+			}, 0, map[ssa.Value]bool{})
+		}
+		inC := func(v ssa.Value) bool {
+			return flowsFrom(v, func(x ssa.Value) bool {
+				c, ok := x.(*ssa.Call)
+				if !ok {
+					return false
+				}
+				for _, a := range c.Common().Args {
+					for _, q := range hCount {
+						if a == q {
+							return true
+						}
+					}
+				}
+				return false
+			}, 0, map[ssa.Value]bool{})
+		}
+		for _, ret := range errorReturns(h) {
+			for _, g := range guardsAt(ret.Block()) {
+				rel, ok := relOf(g)
+				if !ok {
+					continue
+				}
+				switch rel.Op {
+				case token.GTR, token.LSS, token.GEQ, token.LEQ:
+				default:
+					continue
+				}
+				if (inT(rel.X) && inC(rel.Y) && !inC(rel.X)) || (inT(rel.Y) && inC(rel.X) && !inC(rel.Y)) {
+					r.Discharge(rule, key, posOf(p, ret), "a failing return of "+p.FuncName(h)+", whose error the core hands on, is guarded by a comparison of the claimed position with a bound computed from the leaf count", true)
+					return
+				}
+			}
+		}
+	}
 	r.Violate(rule, key, p.Pos(core.Pos()), "no failing return of the hashing core is guarded by a comparison of a claimed position with a bound that depends on the leaf count: positions that do not exist in the forest would be hashed instead of refused", "in "+name)
 }
 
@@ -1138,6 +1205,52 @@ func checkPositionInForest(p *Program, r *Report, rule string, core *ssa.Functio
 // parameters, and -(idx+1) for the Proof field of a Proof parameter idx.
 func emptyChecks(p *Program, fn *ssa.Function) map[int]bool {
 	out := map[int]bool{}
+	// the scan extracted into a predicate: `if containsEmpty(xs) { return error }`, where the
+	// predicate returns true exactly on the path that found an element equal to the empty hash
+	for _, sc := range callsIn(p, fn) {
+		h := sc.call.Common().StaticCallee()
+		if h == nil || !p.owns(h) || h.Blocks == nil || h.Signature.Results().Len() != 1 || !types.Identical(h.Signature.Results().At(0).Type(), types.Typ[types.Bool]) {
+			continue
+		}
+		hp := -1
+		for i, par := range h.Params {
+			if isHashSlice(par.Type()) && emptyPredicate(h, par) {
+				hp = i
+			}
+		}
+		if hp < 0 || hp >= len(sc.call.Common().Args) {
+			continue
+		}
+		// the true edge of the call's result must lead to a failing return
+		var iff *ssa.If
+		if sc.call.Referrers() != nil {
+			for _, ref := range *sc.call.Referrers() {
+				if i, ok := ref.(*ssa.If); ok && i.Cond == ssa.Value(sc.call) {
+					iff = i
+				}
+			}
+		}
+		if iff == nil || !blockReturnsNonNilError(iff.Block().Succs[0]) {
+			continue
+		}
+		arg := sc.call.Common().Args[hp]
+		for i, par := range fn.Params {
+			if isHashSlice(par.Type()) && derivesDeep(arg, func(x ssa.Value) bool { return x == ssa.Value(par) }, 0, map[ssa.Value]bool{}) {
+				out[i] = true
+			}
+			if p.localNamed(par.Type(), "Proof") {
+				i := i
+				if derivesDeep(arg, func(x ssa.Value) bool {
+					if f, ok := x.(*ssa.Field); ok && f.X == ssa.Value(par) && fieldName(par.Type(), f.Field) == "Proof" {
+						return true
+					}
+					return paramFieldRead(fn, x, i, "Proof")
+				}, 0, map[ssa.Value]bool{}) {
+					out[-(i + 1)] = true
+				}
+			}
+		}
+	}
 	for _, b := range fn.Blocks {
 		for _, in := range b.Instrs {
 			bo, ok := in.(*ssa.BinOp)
@@ -3344,10 +3457,10 @@ func checkFullKeepsCreated(p *Program, r *Report, rule string) {
 							continue
 						}
 						fromFull := func(v ssa.Value) bool {
-							return flowsFrom(v, func(x ssa.Value) bool {
+							return dependsOn(v, func(x ssa.Value) bool {
 								_, f, ok := fieldRead(x)
 								return ok && f == "full"
-							}, 0, map[ssa.Value]bool{})
+							})
 						}
 						if fromFull(st.Val) {
 							ok2 = true
@@ -4174,4 +4287,93 @@ func basicBits(b *types.Basic) int {
 	default:
 		return 64
 	}
+}
+
+// dependsOn: v depends on a value satisfying pred through data flow or, at a
+// phi (the short-circuit forms of || and &&), through the branch conditions
+// that select the incoming edge.
+func dependsOn(v ssa.Value, pred func(ssa.Value) bool) bool {
+	seen := map[ssa.Value]bool{}
+	var walk func(v ssa.Value, depth int) bool
+	walk = func(v ssa.Value, depth int) bool {
+		if v == nil || seen[v] || depth > 14 {
+			return false
+		}
+		seen[v] = true
+		if pred(v) {
+			return true
+		}
+		switch x := v.(type) {
+		case *ssa.Phi:
+			for i, e := range x.Edges {
+				if walk(e, depth+1) {
+					return true
+				}
+				if i < len(x.Block().Preds) {
+					pb := x.Block().Preds[i]
+					if iff, ok := pb.Instrs[len(pb.Instrs)-1].(*ssa.If); ok && walk(iff.Cond, depth+1) {
+						return true
+					}
+				}
+			}
+		case *ssa.UnOp:
+			return walk(x.X, depth+1)
+		case *ssa.BinOp:
+			return walk(x.X, depth+1) || walk(x.Y, depth+1)
+		case *ssa.Convert:
+			return walk(x.X, depth+1)
+		case *ssa.ChangeType:
+			return walk(x.X, depth+1)
+		}
+		return false
+	}
+	return walk(v, 0)
+}
+
+// emptyPredicate: h compares elements of its parameter par with the reserved
+// empty hash and returns the constant true on the equal edge, false on every
+// other return.
+func emptyPredicate(h *ssa.Function, par *ssa.Parameter) bool {
+	found := false
+	for _, b := range h.Blocks {
+		for _, in := range b.Instrs {
+			bo, ok := in.(*ssa.BinOp)
+			if !ok || (bo.Op != token.EQL && bo.Op != token.NEQ) || !isHashType(bo.X.Type()) {
+				continue
+			}
+			var other ssa.Value
+			switch {
+			case isEmptyGlobal(bo.X):
+				other = bo.Y
+			case isEmptyGlobal(bo.Y):
+				other = bo.X
+			default:
+				continue
+			}
+			if !derivesDeep(other, func(x ssa.Value) bool { return x == ssa.Value(par) }, 0, map[ssa.Value]bool{}) {
+				continue
+			}
+			var iff *ssa.If
+			for _, ref := range *bo.Referrers() {
+				if i, ok := ref.(*ssa.If); ok {
+					iff = i
+				}
+			}
+			if iff == nil {
+				continue
+			}
+			eqSucc := iff.Block().Succs[0]
+			if bo.Op == token.NEQ {
+				eqSucc = iff.Block().Succs[1]
+			}
+			if len(eqSucc.Instrs) > 0 {
+				if ret, ok := eqSucc.Instrs[len(eqSucc.Instrs)-1].(*ssa.Return); ok && len(ret.Results) == 1 {
+					if c, ok := ret.Results[0].(*ssa.Const); ok && c.Value != nil && c.Value.String() == "true" {
+						found = true
+					}
+				}
+			}
+		}
+	}
+	return found
 }
